@@ -154,6 +154,21 @@ func (db *DB) Delete(
 		return span.Error(err)
 	}
 
+	// If the deletion starts at the first sample of the start domain but after the
+	// domain's start (e.g. a domain opened by a file rollover starts right after the
+	// previous domain's last sample), no pointer can be kept for the sample-free head
+	// [start.Start, tr.Start) of that domain. The time before tr.Start is not part of
+	// the deletion and must stay covered: channels that use this one as their index
+	// keep their domains up to tr.Start and can only be read while those are continuous
+	// in the index. The head is therefore handed over to the preceding pointer when the
+	// two are continuous.
+	persistFrom := startDomain
+	if startOffset == 0 && tr.Start > start.Start && startDomain > 0 &&
+		db.idx.mu.pointers[startDomain-1].End == start.Start {
+		db.idx.mu.pointers[startDomain-1].End = tr.Start
+		persistFrom = startDomain - 1
+	}
+
 	// Calculate size of removed pointers.
 	var removedSize int64
 	for i := startDomain; i <= endDomain; i++ {
@@ -195,7 +210,7 @@ func (db *DB) Delete(
 		)
 	}
 
-	persist := db.idx.indexPersist.prepare(startDomain)
+	persist := db.idx.indexPersist.prepare(persistFrom)
 	// We choose to keep the mutex locked while persisting to index.
 	return span.Error(persist())
 }
